@@ -48,24 +48,70 @@ def run_unit(unit):
         out["identity_on_values"] = [x for x in e.identity_on_values if x]
         out["n_assumptions"] = len(e.assumptions)
         only = unit.get("only")
-        for ob in obs:
-            if only and not any(s in ob.name for s in only):
+        tmo = unit.get("timeout_ms", 20000)
+        ext = None
+        if mode == "UNROLL":
+            from pyvc.model2py import extract as _ex
+            ext = lambda eng, m, _q=qual: _ex(eng, m, _q)
+        todo = [ob for ob in obs if not (only and not any(s in ob.name for s in only))]
+        nproc = unit.get("nproc", 4)
+        # 1. batches of consecutive safety obligations (cheap, numerous in unrolled code)
+        from pyvc.core import Obligation
+        singles, batches, cur = [], [], []
+        for ob in todo:
+            if ob.kind == "safe" and unit.get("batch_safety", True):
+                cur.append(ob)
+                if len(cur) >= 25:
+                    batches.append(cur)
+                    cur = []
+            else:
+                if cur:
+                    batches.append(cur)
+                    cur = []
+                singles.append(ob)
+        if cur:
+            batches.append(cur)
+        batch_obs = []
+        for bt in batches:
+            if len(bt) == 1:
+                singles.append(bt[0])
                 continue
-            ext = None
-            if mode == "UNROLL":
-                from pyvc.model2py import extract as _ex
-                ext = lambda eng, m, _q=qual: _ex(eng, m, _q)
+            bo = Obligation("batch", "batch", bt[-1].n_assump, [], None)
+            bo.batch = bt
+            batch_obs.append(bo)
+        e.solve_many([(bo, tmo, False, None) for bo in batch_obs], nproc=nproc)
+        for bo in batch_obs:
+            if bo.result == "unsat":
+                for o in bo.batch:
+                    o.result, o.time, o.backend, o.reason = "unsat", round(bo.time / len(bo.batch), 4), bo.backend, None
+            else:
+                singles += bo.batch
+        probes = [ob for ob in singles if ob.kind == "probe"]
+        normal = [ob for ob in singles if ob.kind != "probe"]
+        e.solve_many([(ob, 4000, False, None) for ob in probes] +
+                     [(ob, tmo, mode == "UNROLL", ext) for ob in normal], nproc=nproc)
+        # robustness: an `unknown` is retried with other seeds and a longer budget before it counts as undischarged
+        if mode == "INV":
+            for attempt, seed in enumerate((7, 23)):
+                again = [ob for ob in normal if ob.result == "unknown"]
+                if not again:
+                    break
+                for ob in again:
+                    ob.seed = seed
+                    ob.retries = attempt + 1
+                e.solve_many([(ob, tmo * (2 + attempt), False, None) for ob in again], nproc=max(1, nproc // 2))
+        for ob in probes:
+            out.setdefault("probes", []).append({"name": ob.name, "result": ob.result, "time": round(ob.time, 3)})
+        for ob in todo:
             if ob.kind == "probe":
-                # vacuity probe: must not be provable; a short budget is enough to see a contradiction
-                r = e.solve(ob, 4000)
-                out.setdefault("probes", []).append({"name": ob.name, "result": r, "time": round(ob.time, 3)})
                 continue
-            r = e.solve(ob, unit.get("timeout_ms", 20000), want_model=(mode == "UNROLL"), extract=ext)
+            r = ob.result
             rec = {"name": ob.name, "kind": ob.kind, "result": r, "time": round(ob.time, 3),
                    "backend": ob.backend, "reason": ob.reason, "line": ob.line,
-                   "clause": ob.info.get("clause"), "callee": ob.info.get("callee")}
+                   "clause": ob.info.get("clause"), "callee": ob.info.get("callee"),
+                   "retries": getattr(ob, "retries", 0)}
             if r == "unknown" and unit.get("second_solver", True):
-                r2, t2 = second_opinion(e, ob, unit.get("timeout_ms", 20000))
+                r2, t2 = second_opinion(e, ob, tmo)
                 rec["cvc5"] = r2
                 rec["cvc5_time"] = round(t2, 3)
                 if r2 == "unsat":
